@@ -13,8 +13,9 @@ package http
 // event wait for its completion signal, none of which depends on timing:
 //   - NewStream + AppendHeaders(endStream) write the request synchronously on the
 //     calling goroutine (the fake connection has recorded the bytes when
-//     AppendHeaders returns); the token in requestSent is picked up by serve later,
-//     which no observation depends on (Dispatch blocks until serve reads).
+//     AppendHeaders returns); the event then waits until serve has taken the
+//     requestSent token (AfterSend), after which serve can only be in or on its
+//     way to the blocking response read.
 //   - reply / reply+goaway / garbage: the bytes are handed to Dispatch on a helper
 //     goroutine; the event is over when the stream's harness listener saw
 //     OnDestroyStream (and the receiver OnReceive, for replies) - both are
@@ -39,9 +40,11 @@ package http
 import (
 	"context"
 	"fmt"
+	"runtime"
 	"strings"
 	"sync/atomic"
 	"testing"
+	"time"
 
 	"github.com/valyala/fasthttp"
 	"mosn.io/api"
@@ -87,6 +90,30 @@ func (c09HTTP) ReplyBytes(req []byte, goAway bool) ([]byte, error) {
 		r += "Connection: close\r\n"
 	}
 	return []byte(r + "\r\nok"), nil
+}
+
+// AfterSend waits until the serve goroutine has taken the requestSent token, i.e. has left the
+// `select { case <-requestSent: case <-connClosed: return }` at the top of its loop. Without this
+// wait a connection close that follows immediately finds both cases ready and the Go runtime picks
+// one at random (if it picks connClosed the stream is never reset - a schedule-dependent behaviour
+// that belongs to the concurrent part of C09, not to this sequential search).
+func (c09HTTP) AfterSend(sender types.StreamSender) error {
+	cs, ok := sender.(*clientStream)
+	if !ok {
+		return fmt.Errorf("sender is %T", sender)
+	}
+	deadline := time.Now().Add(20 * time.Second)
+	for n := 0; len(cs.connection.requestSent) != 0; n++ {
+		if time.Now().After(deadline) {
+			return fmt.Errorf("the serve goroutine did not take the request over within 20s")
+		}
+		if n < 200 {
+			runtime.Gosched()
+		} else {
+			time.Sleep(20 * time.Microsecond)
+		}
+	}
+	return nil
 }
 
 func (c09HTTP) GoAwayBytes() []byte  { return nil } // HTTP/1 announces go-away in a response (reply+goaway)
